@@ -254,6 +254,11 @@ def main(argv=None):
         "wall_s": round(wall, 2),
         "violations": sum(len(v) for v in unlisted.values()),
     }
+    if level == "translation_validation":
+        # programs translated and executed on both sides; disagreements found between the two executions, each one examined
+        # (classified against known_findings.json or reported)
+        ev["coverage"]["programs"] = events.get("programs", 0)
+        ev["coverage"]["disagreements_checked"] = sum(len(v) for v in known.values()) + sum(len(v) for v in unlisted.values())
     if getattr(mod, "EXHAUSTIVE", {}).get(args.tier):
         ev["coverage"]["exhaustive_part"] = mod.EXHAUSTIVE[args.tier]
     if not args.no_evidence and not args.only:
